@@ -125,7 +125,48 @@ static void run_coeffsweep(const Case& c) {
     std::cout << "case " << c.id << "\n" << "ints " << N << ' ' << B << ' ' << (B ? F : 0) << ' ' << static_cast<uint64_t>(W * 1000) << '\n';
 }
 
+// ps <id> <n> <nb> ; extra = qmin qmax pmin pmax ; off = filling_set (nb) ; data ; ops = x y i n a0 a1 v0 v1 c p ...
+static void ps_print(const PhaseSpace& ps, uint32_t n, uint32_t nb) {
+    print_data("out", ps.getData(), static_cast<size_t>(n) * n * nb);
+    std::cout << "vals";
+    auto p0 = ps.getProjection(0); auto p1 = ps.getProjection(1);
+    for (uint32_t b = 0; b < nb; b++) for (uint32_t x = 0; x < n; x++) std::cout << ' ' << hx(p0[b][x]);
+    for (uint32_t b = 0; b < nb; b++) for (uint32_t y = 0; y < n; y++) std::cout << ' ' << hx(p1[b][y]);
+    for (float f : ps.getBunchPopulation()) std::cout << ' ' << hx(f);
+    std::cout << ' ' << hx(ps.getIntegral());
+    for (int ax = 0; ax < 2; ax++) { auto m = ps.getMoment(ax, 0); for (uint32_t b = 0; b < nb; b++) std::cout << ' ' << hx(m[b]); }
+    for (int ax = 0; ax < 2; ax++) { auto m = ps.getMoment(ax, 1); for (uint32_t b = 0; b < nb; b++) std::cout << ' ' << hx(m[b]); }
+    { auto m = ps.getBunchLength(); for (uint32_t b = 0; b < nb; b++) std::cout << ' ' << hx(m[b]); }
+    { auto m = ps.getEnergySpread(); for (uint32_t b = 0; b < nb; b++) std::cout << ' ' << hx(m[b]); }
+    std::cout << '\n';
+}
+static void run_ps(const Case& c) {
+    uint32_t n = std::stoul(c.head[2]), nb = std::stoul(c.head[3]);
+    PhaseSpace::resetSize(n, nb);
+    std::vector<integral_t> filling(c.off.begin(), c.off.end());
+    std::cout << "case " << c.id << '\n';
+    std::unique_ptr<PhaseSpace> ps;
+    try {
+        ps.reset(new PhaseSpace(c.extra[0], c.extra[1], 1e-3, c.extra[2], c.extra[3], 6.11e5, nullptr, 1.0, 1.0,
+                                filling, 1, c.data.data()));
+    } catch (std::exception& e) { std::cout << "error ctor\n"; return; }
+    for (const auto& op : c.words) {
+        if (op == "x") ps->updateXProjection();
+        else if (op == "y") ps->updateYProjection();
+        else if (op == "i") ps->integrate();
+        else if (op == "n") ps->normalize();
+        else if (op == "N") ps->integrateAndNormalize();
+        else if (op == "a0") ps->average(0);
+        else if (op == "a1") ps->average(1);
+        else if (op == "v0") ps->variance(0);
+        else if (op == "v1") ps->variance(1);
+        else if (op == "c") { std::unique_ptr<PhaseSpace> cp(new PhaseSpace(*ps)); ps = std::move(cp); }
+        else if (op == "p") ps_print(*ps, n, nb);
+    }
+}
+
 static bool dispatch_more(const Case& c) {
+    if (c.kind == "ps") { run_ps(c); return true; }
     if (c.kind == "coeffsweep") { run_coeffsweep(c); return true; }
     if (c.kind == "rf") { run_rf(c); return true; }
     if (c.kind == "drift") { run_drift(c); return true; }
